@@ -140,15 +140,17 @@ def declareAll (std : List OptSpec) : List Parser → List Decl → Except Err (
 
 def publicNames (ps : List Parser) : List Name := names (ps.filter (fun q => !q.internal))
 
+/-- `if default_command is None and commands_names: default_command = commands_names[0]` -/
+def chooseDefault (dflt : Option Name) (ps : List Parser) : Option Name :=
+  match dflt with
+  | some d => some d
+  | none => (publicNames ps).head?
+
 def build (cfg : Cfg) (dflt : Option Name) (ds : List Decl) : Except Err St :=
   if ds = [] then .error .assertion
   else match declareAll cfg.std [] ds with
     | .error e => .error e
-    | .ok ps =>
-      .ok { parsers := ps,
-            default := match dflt with
-              | some d => some d
-              | none => (publicNames ps).head? }
+    | .ok ps => .ok { parsers := ps, default := chooseDefault dflt ps }
 
 /-! ### options -/
 
